@@ -1,18 +1,12 @@
 (* C06 - LL-HLS blocking reload, preload hints and delta updates.
    Only property theorems (closed by [exact]) and [Print Assumptions].
    Model: Model/MuxConcSeq.v (sequential core), Model/MuxConcPar.v (threads), Model/MuxConcSpec.v
-   (well-formedness, input classes of the findings); proofs: Proofs/MuxConc*.v.
+   (well-formedness); proofs: Proofs/MuxConc*.v.
 
-   Findings on the pinned tree (faithful model, so the full statements are refuted and the
-   theorems carry the hypothesis that excludes exactly the finding's inputs):
-     F3a  hasPart: _HLS_part past the end of the LAST complete segment blocks although part 0
-          of the open segment is published            -> c06_ready_complete_refuted_f3a
-     F3b  hasPart: _HLS_msn of a listed gap blocks (until it expires, then 400)
-                                                       -> c06_ready_complete_refuted_f3b
-     F11  _HLS_msn of the open segment WITHOUT _HLS_part is answered on the first part,
-          the segment is not complete                  -> c06_ready_sound_refuted_f11
-     F9   filterOutHLSParams keeps _HLS_* when url.ParseQuery fails
-                                                       -> c06_no_directives_refuted *)
+   The model follows /repo after the repairs bb6b0bd (hasPart indexes the window by position:
+   former findings F3a, F3b), da34093 (_HLS_msn without _HLS_part waits for the complete segment:
+   F11), def6988 (filterOutHLSParams on the lenient parse: F9), e317305 (404 when the hinted part
+   was evicted: F12); every theorem is stated at full strength, there is no _partial / _refuted. *)
 From Coq Require Import List ZArith Bool String.
 From GoHls Require Import Lib.MuxSched Model.MuxConcSeq Model.MuxConcSpec Model.MuxConcPar
   Proofs.MuxConcSeqA Proofs.MuxConcSeqB Proofs.MuxConcSeqC
@@ -35,69 +29,52 @@ Proof. exact init_mux_wf. Qed.
 Print Assumptions c06_initial_wf.
 
 (* Ready => the playlist generated in that same state contains what was asked *)
-Theorem c06_ready_sound_partial : forall s q M P,
+Theorem c06_ready_sound : forall s q M P,
   wf_stream LL s -> in_range s -> 0 <= M -> (forall p, P = Some p -> 0 <= p) ->
   decide LL s M P = Ready ->
-  f11_input s M P = false ->
   exists pl, generateMediaPlaylistFMP4 LL s false q = Some pl /\ pl_contains pl M P = true.
-Proof. exact ready_sound_partial. Qed.
-Print Assumptions c06_ready_sound_partial.
-
-Theorem c06_ready_sound_refuted_f11 :
-  exists s M pl, wf_stream LL s /\ in_range s /\
-    decide LL s M None = Ready /\
-    generateMediaPlaylistFMP4 LL s false [] = Some pl /\ pl_contains pl M None = false.
-Proof. exact ready_sound_refuted_f11. Qed.
-Print Assumptions c06_ready_sound_refuted_f11.
+Proof. exact ready_sound. Qed.
+Print Assumptions c06_ready_sound.
 
 Example c06_ready_sound_hyps :
-  wf_stream LL ex_stream /\ in_range ex_stream /\
-  decide LL ex_stream 8 (Some 0) = Ready /\ f11_input ex_stream 8 (Some 0) = false.
+  wf_stream LL ex_stream /\ in_range ex_stream /\ decide LL ex_stream 8 (Some 0) = Ready.
 Proof. split; [exact ex_wf|]. split; [exact ex_in_range|]. exact ex_ready. Qed.
 
 (* contains => not Block: no further input is needed *)
-Theorem c06_ready_complete_partial : forall s q M P pl,
+Theorem c06_ready_complete : forall s q M P pl,
   wf_stream LL s -> in_range s -> 0 <= M -> (forall p, P = Some p -> 0 <= p) ->
   segments s <> [] ->
   generateMediaPlaylistFMP4 LL s false q = Some pl ->
   pl_contains pl M P = true ->
-  f3a_input s M P = false -> f3b_input s M = false ->
   decide LL s M P <> Block.
-Proof. exact ready_complete_partial. Qed.
-Print Assumptions c06_ready_complete_partial.
-
-Theorem c06_ready_complete_refuted_f3a :
-  exists s M P pl, wf_stream LL s /\ in_range s /\
-    generateMediaPlaylistFMP4 LL s false [] = Some pl /\
-    pl_contains pl M P = true /\ decide LL s M P = Block /\ f3a_input s M P = true.
-Proof. exact ready_complete_refuted_f3a. Qed.
-Print Assumptions c06_ready_complete_refuted_f3a.
-
-Theorem c06_ready_complete_refuted_f3b :
-  exists s M P pl, wf_stream LL s /\ in_range s /\
-    generateMediaPlaylistFMP4 LL s false [] = Some pl /\
-    pl_contains pl M P = true /\ decide LL s M P = Block /\ f3b_input s M = true.
-Proof. exact ready_complete_refuted_f3b. Qed.
-Print Assumptions c06_ready_complete_refuted_f3b.
+Proof. exact ready_complete. Qed.
+Print Assumptions c06_ready_complete.
 
 Example c06_ready_complete_hyps :
   exists pl, generateMediaPlaylistFMP4 LL ex_stream false [] = Some pl /\
-             pl_contains pl 7 (Some 1) = true /\ f3a_input ex_stream 7 (Some 1) = false /\
-             f3b_input ex_stream 7 = false /\ decide LL ex_stream 7 (Some 1) = Ready.
+             pl_contains pl 7 (Some 1) = true /\ pl_contains pl 7 (Some 3) = true /\
+             pl_contains pl 3 None = true /\ pl_contains pl 8 None = false /\
+             decide LL ex_stream 7 (Some 1) = Ready.
 Proof. exact ex_contained. Qed.
+
+(* the inputs of the repaired defects, on a reachable state: a part index past the end of the
+   last complete segment and a listed gap are answered; the open segment without a part index
+   waits *)
+Example c06_former_findings :
+  decide LL ex_stream 7 (Some 3) = Ready /\ decide LL ex_stream 3 None = Ready /\
+  decide LL ex_stream 3 (Some 5) = Ready /\ decide LL ex_stream 8 None = Block.
+Proof. exact ex_former_findings. Qed.
 
 (* 400 exactly when M > last complete + 2 or M <= the head of the window (the head segment,
    which the next rotation evicts, is treated as expired) *)
 Theorem c06_400_only_if : forall s M P,
   wf_stream LL s -> in_range s -> segments s <> [] -> 0 <= M ->
-  (forall p, P = Some p -> 0 <= p) ->
   (decide LL s M P = Respond400 <-> (M > last_complete_msn s + 2 \/ M <= head_msn s)).
 Proof. exact only_400_if. Qed.
 Print Assumptions c06_400_only_if.
 
 Theorem c06_never_reject : forall s M P,
   wf_stream LL s -> in_range s -> hasContent LL s = true -> 0 <= nextSegmentID s ->
-  (forall p, P = Some p -> 0 <= p) ->
   M = nextSegmentID s \/ M = nextSegmentID s + 1 ->
   decide LL s M P <> Respond400.
 Proof. exact never_reject. Qed.
@@ -116,7 +93,8 @@ Theorem c06_reject_before_content : forall v s M P,
 Proof. exact reject_before_content. Qed.
 Print Assumptions c06_reject_before_content.
 
-Theorem c06_no_panic : forall s M p, wf_stream LL s -> decide_core LL s M p <> DPanic.
+Theorem c06_no_panic : forall s M P,
+  wf_stream LL s -> in_range s -> 0 <= M -> decide_core LL s M P <> DPanic.
 Proof. exact decide_no_panic. Qed.
 Print Assumptions c06_no_panic.
 
@@ -134,9 +112,10 @@ Print Assumptions c06_bad_args.
 Theorem c06_good_args : forall q M,
   parseUint (queryVal q "_HLS_msn") = Some M ->
   (is_empty (queryVal q "_HLS_part") = true \/ exists p, parseUint (queryVal q "_HLS_part") = Some p) ->
-  exists p d, handleMediaPlaylist_pre LL q = MKBlocking M p d
-    /\ p = match parseUint (queryVal q "_HLS_part") with Some p => p | None => 0 end
-    /\ 0 <= M < two64 /\ 0 <= p < two64.
+  exists d, handleMediaPlaylist_pre LL q =
+              MKBlocking M (if is_empty (queryVal q "_HLS_part") then None
+                            else parseUint (queryVal q "_HLS_part")) d
+    /\ 0 <= M < two64.
 Proof. exact pre_good_args. Qed.
 Print Assumptions c06_good_args.
 
@@ -165,25 +144,26 @@ Theorem c06_delta_fields : forall v s q pl,
 Proof. exact delta_shape_fields. Qed.
 Print Assumptions c06_delta_fields.
 
-(* no _HLS_ directive is copied into the URIs - when url.ParseQuery accepts the query *)
-Theorem c06_no_directives_partial : forall v s d q pl k x,
-  parse_error q = false ->
+(* no _HLS_ directive is copied into the URIs, whatever the query (also a partly malformed one) *)
+Theorem c06_no_directives : forall v s d q pl k x,
   generateMediaPlaylistFMP4 v s d q = Some pl ->
   In (QPair k x) (pl_query pl) -> prefix "_HLS_" k = false.
-Proof. exact no_directives_partial. Qed.
-Print Assumptions c06_no_directives_partial.
+Proof. exact no_directives. Qed.
+Print Assumptions c06_no_directives.
 
-Theorem c06_no_directives_refuted :
-  exists q, queryVal q "_HLS_skip" = "YES"%string /\
-            In (QPair "_HLS_skip" "YES") (filterOutHLSParams q).
-Proof. exact no_directives_refuted. Qed.
-Print Assumptions c06_no_directives_refuted.
+Theorem c06_no_malformed_token : forall q, ~ In QBad (filterOutHLSParams q).
+Proof. exact filter_no_bad. Qed.
+Print Assumptions c06_no_malformed_token.
 
 Theorem c06_other_params_kept : forall q k v,
-  parse_error q = false -> In (QPair k v) q -> prefix "_HLS_" k = false ->
-  In (QPair k v) (filterOutHLSParams q).
+  In (QPair k v) q -> prefix "_HLS_" k = false -> In (QPair k v) (filterOutHLSParams q).
 Proof. exact filter_keeps_others. Qed.
 Print Assumptions c06_other_params_kept.
+
+Example c06_no_directives_example :
+  queryVal [QPair "_HLS_skip" "YES"; QBad; QPair "token" "t"] "_HLS_skip" = "YES"%string /\
+  filterOutHLSParams [QPair "_HLS_skip" "YES"; QBad; QPair "token" "t"] = [QPair "token" "t"].
+Proof. exact no_directives_example. Qed.
 
 (* ---------------- concurrent layer: all schedules, any number of requesters ---------------- *)
 
@@ -200,7 +180,7 @@ Theorem c06_safety : forall m prog reqs sched i r resp,
 Proof. exact safety_all_schedules. Qed.
 Print Assumptions c06_safety.
 
-Theorem c06_safety_blocking : forall m q k M p d pl,
+Theorem c06_safety_blocking : forall m q k M (p : option Z) d pl,
   test m q (FBlocking k M p d) = TExit (R200Playlist pl) ->
   exists s, nth_error (m_streams m) k = Some s /\ s_closed s = false /\
             decide_core (m_variant m) s M p = Ready /\
@@ -240,7 +220,7 @@ Theorem c06_sleepers_blocked_when_idle : forall m prog reqs sched i r f,
 Proof. exact sleepers_blocked_when_idle. Qed.
 Print Assumptions c06_sleepers_blocked_when_idle.
 
-Theorem c06_content_ready_blocking : forall m k M p d s,
+Theorem c06_content_ready_blocking : forall m k M (p : option Z) d s,
   nth_error (m_streams m) k = Some s ->
   content_ready m (FBlocking k M p d) = true <->
   (decide_core (m_variant m) s M p = Ready \/ decide_core (m_variant m) s M p = Respond400).
@@ -258,8 +238,7 @@ Theorem c06_progress : forall c i r f,
     let c' := crun c (repeat (TR i) k) in
     done_with c' i = Some resp /\
     resp_of_test (test (c_mux c) (req_query (r_req r)) f) resp /\
-    (exists r', nth_error (c_reqs c') i = Some r' /\ r_waits r' = r_waits r /\
-                (c_owner c' = None \/ r_leaked r' = true)).
+    (exists r', nth_error (c_reqs c') i = Some r' /\ r_waits r' = r_waits r /\ c_owner c' = None).
 Proof. exact ready_progress. Qed.
 Print Assumptions c06_progress.
 
@@ -296,7 +275,7 @@ Proof. split; [apply init_fresh|]. split; [reflexivity|apply init_paths_ok]. Qed
 
 (* the preload hint: the closure leaves its wait loop only in a state where the part is
    complete (nextPartID > id), and then calls the real handler of exactly that part - or
-   nothing at all when the part has been evicted in the meantime *)
+   answers 404 when the part has been evicted in the meantime ([hint_resp]) *)
 Theorem c06_hint_body : forall m prog reqs sched i r h,
   m_variant m = LL -> paths_ok m ->
   nth_error (c_reqs (crun (cinit m prog reqs) sched)) i = Some r ->
